@@ -16,7 +16,9 @@ CHECKS = {
               'table. Binding: every call history TLC enumerates from the ideal facade is replayed on a real Parser and each '
               'result compared with a brand-new Parser for the settings in force; long random histories recorded from the '
               'real Parser are validated by TLC against the ideal facade (Trace_C09); subprocess sweeps over hash seeds, '
-              'earlier translations and threads compare the text byte for byte.'),
+              'earlier translations and threads compare the text byte for byte. The pipeline specification E2PW (a workbook file replaced '
+              'under its path, the Parser\'s cache, the written class file, executors made from the file or the text) is model-checked '
+              'and random pipeline histories of the real code are validated against it (Trace_E2PW).'),
         design_ref='§7 C09',
         note=NOTE_COMMON + 'Thread interleavings of the real interpreter are sampled, not enumerated; sha256 prefixes identify texts.',
         technique='TLA+ refinement (TLC) + history replay + trace validation'),
@@ -28,7 +30,10 @@ CHECKS = {
               'every sequence of override batches TLC enumerates is replayed on a real Executor under several PYTHONHASHSEEDs '
               'and every coordinate, grid and size is compared after each batch with the snapshot the specification computes by '
               'evaluating (workbook (+) overrides) itself; a sample is compared with a fresh translation of the edited workbook; '
-              'random long histories recorded from the real Executor are validated by TLC (Trace_C04).'),
+              'random long histories recorded from the real Executor are validated by TLC (Trace_C04). The session specification E2P '
+              '(several executors over one translation, class object or file) is model-checked with a code-shaped refinement and '
+              'three deviating variants; every TLC-enumerated session history is replayed on real executors and random '
+              'interleavings are validated by TLC (Trace_E2P).'),
         design_ref='§7 C04',
         note=NOTE_COMMON + 'The generator workbook (exported from the spec) uses + * / on integers; other formula semantics are covered by C01/C10-C17.',
         technique='TLA+ refinement (TLC) + history replay + trace validation'),
